@@ -537,6 +537,51 @@ class Sweep:
                     except ValueError:
                         pass
 
+    def after_refusal(self):
+        """histories: an in-place request that is REFUSED (uncovered target dimension, then an unsupported
+        keyword), followed by the copying forms of the same equivalence on a covered pair — the copying
+        forms must still leave their input untouched (state kept between calls — a shared instance, a flag,
+        a cache — must not leak from a failed call into later ones; seeded change C09-c)"""
+        chk, rng = self.chk, self.rng
+        alld = [(n, self.units[n][0]) for n in list(UNIT_POOL) + list(OTHER_POOL) if self.units.get(n)]
+        for eq, cls in self.reg.items():
+            members = [self.dn(d) for d in cls._dims]
+            pairs = [(a, b) for a in members for b in members if a != b and self.units.get(a) and self.units.get(b)]
+            outside = [u for n, u in alld if n not in members]
+            if not pairs or not outside:
+                continue
+            for a, b in pairs[:4]:
+                ua, ub, bad = self.units[a][0], self.units[b][0], outside[0]
+                vals = [round(rng.uniform(1.0, 9.0), 3), round(rng.uniform(1.0, 9.0), 3)]
+                body = (f"x = unyt_array(np.array({vals!r}), {ua!r})\n"
+                        "for _kw in ({}, {'no_such_keyword': 1}):\n"
+                        f"    try:\n        x.convert_to_equivalent({bad!r}, {eq!r}, **_kw)\n    except Exception:\n        pass\n"
+                        f"y = unyt_array(np.array({vals!r}), {ua!r})\nb0 = (y.d.tobytes(), str(y.units))\n")
+                env = {}
+                try:
+                    exec(snippet(body), env)
+                except Exception as e:  # noqa: BLE001
+                    chk.count("after-refusal:setup-raised:" + core.exc_name(e))
+                    continue
+                y, b0 = env["y"], env["b0"]
+                calls = {"to_equivalent": f"y.to_equivalent({ub!r}, {eq!r})", "to": f"y.to({ub!r}, {eq!r})",
+                         "in_units": f"y.in_units({ub!r}, equivalence={eq!r})", "to_value": f"y.to_value({ub!r}, {eq!r})"}
+                for cn, src in calls.items():
+                    try:
+                        eval(src, env)
+                        outcome = "returned"
+                    except Exception as e:  # noqa: BLE001
+                        outcome = core.exc_name(e)
+                    intact = (y.d.tobytes(), str(y.units)) == b0
+                    chk.count("after-refusal:" + outcome)
+                    chk.case(("after-refusal", eq, a, b, cn))
+                    if not intact:
+                        chk.fail(f"purity|after-refused-inplace|{eq}|{cn}",
+                                 f"{eq} {a}->{b}: after a refused in-place request, the copying form {cn} changed its input",
+                                 {"python": snippet(body + f"try:\n    {src}\nexcept Exception:\n    pass\nassert (y.d.tobytes(), str(y.units)) == b0, y\n"),
+                                  "equivalence": eq, "units": [ua, ub]})
+                        break
+
     def reducible_inputs(self):
         """input units whose own expression simplifies to a coefficient (two atoms of one
         dimension, e.g. K*cm/angstrom = 1e8 K): the in-place form must still equal the copying form"""
@@ -910,6 +955,7 @@ def run(tier, seed):
     sw = Sweep(chk, tier, rng, X, collect_model=model is not None)
     sw.covered(n_units=3 if tier == "quick" else 150)
     sw.uncovered(per_equiv=24 if tier == "quick" else None)
+    sw.after_refusal()
     sw.wrapper_routes()
     sw.offset_inputs()
     sw.reducible_inputs()
